@@ -139,23 +139,23 @@ def _lt(text, technique, note=""):
 
 
 LEVEL_TEXT = {
-    "C01": _lt("frame_condition / history_persistent / op_own_writes / any_history_persistent: in the allocation-ownership model of the nine operation models (sort, filter, slice, setColumn, copy, apply, distinct, groupBy, aggregate) no history of operations changes an array that existed before. The real code is tied to the model by re-observing every earlier frame (digest of all observations) after every step of generated histories.",
+    "C01": _lt("gen_project_persistent: read off the code regenerated from today's source, every write of Slice/Select/Drop/Copy/setColumn/Sort/Distinct and the internal/index functions goes to a freshly allocated array and every earlier frame observes what it observed (heap model with slice headers and capacities). frame_condition / history_persistent / op_own_writes / any_history_persistent: in the allocation-ownership model of the nine operation models (sort, filter, slice, setColumn, copy, apply, distinct, groupBy, aggregate) no history of operations changes an array that existed before. The real code is tied to the model by re-observing every earlier frame (digest of all observations) after every step of generated histories.",
                "Lean 4 proof (invariant over histories in a heap model) + differential correspondence",
                "The Go memory model and slice aliasing are represented only by the ownership discipline; that each Go operation obeys it is validated by T2 (re-observation), not proved from the Go source."),
-    "C02": _lt("The evaluation of a Filter leaf is regenerated from today's source and proved equal to the spec for ALL cells: gen_kernel_semantics (every kernel of the five column packages adds exactly the spec's predicate to the mask), gen_leaf_semantics_partial (dispatch on comparator string and argument kind, table look-ups, errors, enum strictness = leafPred; excluded: float constants on int columns, which the code documents as truncated). filter_refines: the mirror of QFrame.filter/And/Or/Not with the shared mask and the inverse shortcut returns exactly index.filter sem for every clause tree and physical index; mirrorFilter_eq_spec_today: the executable mirror built from today's tables = the spec's keptRows. Every generated Filter call is compared with spec and mirror.",
+    "C02": _lt("gen_clause_filter_semantics: the clause evaluation (QFrame.filter, And/Or/Not/Null, orFrames, index.Filter - 25 functions regenerated statement by statement) equals the mirror for every clause tree and frame, so together with the regenerated kernels and dispatch the whole of Filter is regenerated from source and proved against the row-wise spec. The evaluation of a Filter leaf is regenerated from today's source and proved equal to the spec for ALL cells: gen_kernel_semantics (every kernel of the five column packages adds exactly the spec's predicate to the mask), gen_leaf_semantics_partial (dispatch on comparator string and argument kind, table look-ups, errors, enum strictness = leafPred; excluded: float constants on int columns, which the code documents as truncated). filter_refines: the mirror of QFrame.filter/And/Or/Not with the shared mask and the inverse shortcut returns exactly index.filter sem for every clause tree and physical index; mirrorFilter_eq_spec_today: the executable mirror built from today's tables = the spec's keptRows. Every generated Filter call is compared with spec and mirror.",
                "Lean 4 proof (translator-regenerated kernels, dispatch and tables proved against a row-wise spec; refinement of the clause-tree mirror) + differential correspondence"),
     "C03": _lt("sort_perm / sort_sorted_full: the line-by-line mirror of internal/sort (pdqsort with heapsort fallback) returns a sorted permutation for every size, strict weak order and regime; gen_compare_semantics / sorter_less_eq_rowLess: the comparators regenerated from today's source are the spec's keyCmp for all cells and flag settings, and Sorter.Less over them is the spec's rowLess; gen_reject_semantics (Sort rejects exactly unknown columns). The exact permutation of the real sorter is compared with the mirror on adversarial inputs; Sort results are checked to be sorted permutations.",
                "Lean 4 proof (unbounded induction over the sorter mirror; regenerated comparators) + exact differential correspondence"),
-    "C04": _lt("groupBy_partition: the mirror of the open-addressing table partitions the rows by key equality for every hash function, collision pattern and growth step; gen_hash_respects_equality (keys the regenerated comparator calls Equal get equal values from the regenerated Hash terms, for all cells and any byte hash), gen_agg_semantics (the built-in aggregations of today's source = the spec's on every non-empty group), gen_compare_keyEq. The real grouper is replayed exactly with injected hashes (incl. one run beyond 2^16 slots); Aggregate/QFrames are compared with the spec's groups.",
+    "C04": _lt("gen_aggregate_loops_semantics / gen_key_columns_semantics: the regenerated Aggregate loops hand each group's cells in order to the function and keep each group's first key. groupBy_partition: the mirror of the open-addressing table partitions the rows by key equality for every hash function, collision pattern and growth step; gen_hash_respects_equality (keys the regenerated comparator calls Equal get equal values from the regenerated Hash terms, for all cells and any byte hash), gen_agg_semantics (the built-in aggregations of today's source = the spec's on every non-empty group), gen_compare_keyEq. The real grouper is replayed exactly with injected hashes (incl. one run beyond 2^16 slots); Aggregate/QFrames are compared with the spec's groups.",
                "Lean 4 proof (table invariant for any hash function; regenerated hash, comparator and aggregation terms) + differential correspondence",
                "runtime.memhash is a parameter (any function of bytes and seed)."),
     "C05": _lt("distinct_spec on the spec; Distinct uses the same table as GroupBy (partition theorem of C04, regenerated Hash/Compare terms); gen_distinct_semantics (rejects exactly unknown columns, also on empty frames). Results of the real code are checked to hold exactly one whole row per key class.",
                "Lean 4 proof (shared with C04) + differential correspondence"),
-    "C06": _lt("setColumn_wf / setColumn_abs / applyFn1_rowwise and the C06Apply lemmas (replace in position or append last, other columns untouched); gen_apply_dispatch / gen_apply_loop (Apply's per-instruction dispatch and loop regenerated from source = applyS, stopping at the first failing instruction). Apply/FilteredApply/WithRowNums of the real code are compared exactly with the spec on derived frames, with a function catalogue defined identically in Go and Lean.",
+    "C06": _lt("gen_apply_loops_semantics: the Apply1/Apply2/apply0 loops regenerated from today's source write fn(cell of the same physical row) at every row of the index into a zero-initialised array of the full column length, for every column type and accepted signature - exactly applyInstr. setColumn_wf / setColumn_abs / applyFn1_rowwise and the C06Apply lemmas (replace in position or append last, other columns untouched); gen_apply_dispatch / gen_apply_loop (Apply's per-instruction dispatch and loop regenerated from source = applyS, stopping at the first failing instruction). Apply/FilteredApply/WithRowNums of the real code are compared exactly with the spec on derived frames, with a function catalogue defined identically in Go and Lean.",
                "Lean 4 proof (frame invariant, refinement lemmas, regenerated dispatch) + differential correspondence"),
     "C07": _lt("gen_function_semantics: every function of the default evaluation context, regenerated from today's source, equals the spec's evalUnary/evalBinary on all cells (64-bit wrap-around, nil-neutral concatenation); eval'_bookkeeping: the temp columns of Eval never collide with user columns and are all dropped, for every expression tree. Eval of the real code is compared exactly with the denotational spec under default, user and overriding contexts.",
                "Lean 4 proof (regenerated function terms; temp-column choreography of the mirror) + differential correspondence"),
-    "C08": _lt("gen_guards_semantics: the validation prefixes of Slice/Select/Drop/Copy regenerated from today's source reject exactly the requests the spec rejects, for all requests; gen_checkname_semantics (CheckName = legalName on all byte strings); gen_new_guards_partial; C08Project lemmas (projections commute with observation); pointer_roundtrip. New/Select/Drop/Slice/Copy of the real code are compared exactly with newS/selectS/dropS/sliceS/copyS including every rejection rule.",
+    "C08": _lt("gen_project_semantics / gen_project_total: the work of Slice/Select/Drop/Copy after validation, regenerated from today's source, yields the spec's logical frame and a well-formed physical frame for all requests; gen_new_semantics_partial / gen_factory_semantics: createColumn, New's checks and the enum factory = newS / mkEnum. gen_guards_semantics: the validation prefixes of Slice/Select/Drop/Copy regenerated from today's source reject exactly the requests the spec rejects, for all requests; gen_checkname_semantics (CheckName = legalName on all byte strings); gen_new_guards_partial; C08Project lemmas (projections commute with observation); pointer_roundtrip. New/Select/Drop/Slice/Copy of the real code are compared exactly with newS/selectS/dropS/sliceS/copyS including every rejection rule.",
                "Lean 4 proof (regenerated guard chains; projection lemmas) + differential correspondence"),
     "C09": _lt("gen_equals_eq_spec: QFrame.Equals' shape checks and the five Column.Equals bodies regenerated from today's source equal equalsS on all pairs of well-formed frames; gen_stringAt_semantics / gen_append_semantics (the per-cell rendering used by ToCSV/String and ToJSON); gen_string_semantics (String()'s layout program regenerated from source - widths max(len(header),5), fixLengthString = fixLen, 50-row limit, truncation notice, Dims line - prints the spec's stringPieces on all well-typed frames); equalsS is cell-wise equality (C09Equals). Equals of the real code is compared with the spec in both directions, typed views are cross-checked on every observation, rebuilt frames must be congruent, String() is compared with the frame.",
                "Lean 4 proof (regenerated observation functions) + differential correspondence"),
@@ -164,7 +164,7 @@ LEVEL_TEXT = {
     "C11": _lt("interleaving_deterministic / ops_interleaving_deterministic: any multiset of the nine operation models, under every schedule, never writes a shared array and each ends where it ends alone. The real code is run under the race detector with batches of concurrent operations on shared and derived frames; results are compared with the sequential ones.",
                "Lean 4 proof (all schedules, ownership discipline) + race-detector runs as execution-based validation",
                "PARTIAL: the theorem is about the ownership model; that the Go code obeys the discipline (no write to shared storage) is observed by the race detector and by C01's re-observation, not proved from the source. Go memory model, unsafe string views and math/rand's lock are outside the model."),
-    "C12": _lt("read_schedule_independent / any_two_schedules_agree: the mirror of the whole fastcsv reader returns the same rows, fields and error for every read schedule; read_render' / read_eq_spec' / read_render_no_final_newline / read_render_trailing_delim: reading a rendered document returns its fields and equals the RFC 4180 scanner (quoted fields may contain CR LF); columnToData_eq_spec / infer_spec: the mirror of the type inference equals the spec. The real reader and ReadCSV are compared exactly with the array-level mirror, with the proof model (documents up to 2500 bytes) and with the spec on generated documents x read schedules x configurations.",
+    "C12": _lt("gen_columnToData_spec: today's columnToData regenerated from source evaluates to the spec's csvColumn for all cell lists, oracles and configurations. read_schedule_independent / any_two_schedules_agree: the mirror of the whole fastcsv reader returns the same rows, fields and error for every read schedule; read_render' / read_eq_spec' / read_render_no_final_newline / read_render_trailing_delim: reading a rendered document returns its fields and equals the RFC 4180 scanner (quoted fields may contain CR LF); columnToData_eq_spec / infer_spec: the mirror of the type inference equals the spec. The real reader and ReadCSV are compared exactly with the array-level mirror, with the proof model (documents up to 2500 bytes) and with the spec on generated documents x read schedules x configurations.",
                "Lean 4 proof (simulation: any schedule = loaded buffer; read-back of rendered documents; type inference) + exact differential correspondence",
                "strconv parsing is a parameter (oracle computed by the harness from the standard library)."),
     "C13": _lt("parse_write / read_write: the byte-exact mirror of encoding/csv.Writer as ToCSV uses it is inverted by the RFC 4180 scanner and by the model of qframe's own reader for every read schedule (tocsv_read for the rows ToCSV produces); gen_stringAt_semantics (the cell strings regenerated from source); gen_tocsv_semantics / gen_tocsv_error (ToCSV's record program regenerated from source hands exactly tocsvRows of the selected columns to the csv writer, rejects iff csvColumns does, flushes and returns the writer's error). ToCSV output of the real code is parsed by the spec's scanner and must denote the frame; reading it back with ReadCSV must give the frame the property describes.",
@@ -182,7 +182,7 @@ LEVEL_TEXT = {
     "C18": _lt("toUpper_spec: the custom ToUpper equals encode(map up s) for every string, case mapping and buffer size; like_correct / ilike_correct: the matcher chosen by NewMatcher's order of tests answers the declarative wildcard semantics for every pattern and string; gen_kernel_semantics for like/ilike. Matcher choice and matching of the real code are compared with the rule; string and enum columns must select the same rows.",
                "Lean 4 proof (ToUpper refinement; matcher decision logic) + differential correspondence",
                "Regular-expression matching (Go regexp) and unicode.ToUpper are parameters supplied as oracle annotations."),
-    "C19": _lt("scan_refines_spec: the complete mirror of Column.Scan (five value kinds, coercions, NULL back-fill) equals the spec for homogeneous result sets; readback_frame: reading back what ToSQL wrote reproduces the frame (enums as strings); insertText_shape / placeholders_spec. ToSQL against a recording driver: statement text and arguments per row compared with the spec for every dialect option; ReadSQL of scripted result sets (reused row buffers, failing rows) compared with readSqlS.",
+    "C19": _lt("gen_scan_semantics / gen_scan_refines_spec: Column.Scan, its helpers and coercions regenerated from today's source, folded over any list of driver values (text as string or []uint8), equal the mirror and hence the spec in scope. scan_refines_spec: the complete mirror of Column.Scan (five value kinds, coercions, NULL back-fill) equals the spec for homogeneous result sets; readback_frame: reading back what ToSQL wrote reproduces the frame (enums as strings); insertText_shape / placeholders_spec. ToSQL against a recording driver: statement text and arguments per row compared with the spec for every dialect option; ReadSQL of scripted result sets (reused row buffers, failing rows) compared with readSqlS.",
                "Lean 4 proof (scan state machine, read-back, statement shape) + differential correspondence with a recording database/sql driver",
                "database/sql argument conversion and the driver contract are assumed."),
 }
